@@ -361,6 +361,15 @@ def run_case(case, rec, mon=None):
             from ..common import poke
 
             poke(bank)
+
+            from ..common import scribble
+
+
+            if case["idx"] % 3 == 0:
+
+                scribble(bank)  # ... and overwrites the arrays the properties handed out (centres in kHz, say)
+
+                rec.count("banks_whose_property_values_were_overwritten_by_the_caller")
             rec.count("banks_inspected_before_the_first_probe")
         if bank is not None:
             nf = bank.num_filts
